@@ -507,6 +507,9 @@ def gallina_of_model(model, k, dt):
                 raise Unrecognised("OneHot depth / values")
             extra_binders.append("(j : Z)")
             r = (("fint",), f"(o_onehot {zlit(depth[0])} {zlit(vals[0])} {zlit(vals[1])} {ex[0]} j)")
+        elif op == "Identity":
+            only()
+            r = ins[0]
         elif op == "Unsqueeze":
             only()
             if kinds[0][0] != "int" or kinds[0][1] != "int64" or vec(n.input[1]) != [0]:
@@ -562,7 +565,7 @@ def coq_names(k, dt):
         s = "_b" if isb else ""
         return f"jax_{n}{s}", f"lowered_{n}{s}", "bool"
     if n in ("round_away",):
-        return "jax_round_away", "lowered_round", "fint"
+        return "jax_round_away", "lowered_round_away", "fint"
     if n in ("round_even", "jnp_round"):
         return "jax_round_even", "lowered_round", "fint"
     if n in ("floor", "ceil"):
@@ -588,16 +591,20 @@ def coq_names(k, dt):
 
 
 def lowered_alternatives(k, dt):
-    """the Kernels.v terms a real export may be convertible to: lowered_<k> (the unchanged plugin) or, where a repair
-    is modelled and proved (repaired_<k>_correct), the repaired graph of .scratch/c01k/fix_*.diff"""
+    """the Kernels.v terms a real export may be convertible to: lowered_<k> (the current plugin; for round_away, one_hot
+    and dynamic_slice that is the repaired graph of the fix commits, the pre-repair graphs are history).  A further proved
+    repaired_<k> may be listed here while a patch of .scratch/c01k/ is pending."""
     low = coq_names(k, dt)[1]
     alts = [low]
-    if k.name == "round_away":
-        alts.append("repaired_round_away")
-    elif k.name == "one_hot":
-        alts.append(f"(fun i j => repaired_one_hot {sb_lit(dt)} {k.extra['n']} i j)")
-    elif k.name == "dynamic_slice":
-        alts.append(f"(fun i => repaired_dynamic_slice {sb_lit(dt)} {k.extra['dim']} {k.extra['size']} i)")
+    sb = sb_lit(dt) if dt in INT_DTYPES else None
+    if k.name == "neg" and dt in UNSIGNED:                                   # fix_neg_unsigned.diff
+        alts.append(f"repaired_neg {sb}")
+    elif k.name in ("shift_left", "shift_right_logical") and dt in SIGNED:   # fix_shift_signed.diff
+        alts.append(f"repaired_{k.name} {sb}")
+    elif k.name == "shift_right_arithmetic" and dt in UNSIGNED:              # fix_sra_unsigned.diff
+        alts.append(f"repaired_sra_unsigned {sb}")
+    elif k.name.startswith("integer_pow") and k.extra["y"] >= 1:             # fix_integer_pow.diff
+        alts.append(f"(fun x => repaired_integer_pow {sb} x {k.extra['y']}%nat)")
     return alts
 
 
